@@ -6,7 +6,7 @@
     start-up sequence of server.Serve ([recover]).  [guards]: as in Properties_C04, every operation (completed or
     interrupted) meets its decidable guard in the store it starts in. *)
 From Coq Require Import List NArith Bool.
-From V Require Import Common.Bytes Store.Fs Store.Ops Store.ProofsAlist Store.ProofsNames Store.ProofsInv Store.ProofsOps Store.ProofsTop Store.ProofsMore Store.ProofsRedo.
+From V Require Import Common.Bytes Store.Fs Store.Ops Store.ProofsAlist Store.ProofsNames Store.ProofsInv Store.ProofsOps Store.ProofsTop Store.ProofsMore Store.ProofsRedo Store.ProofsRedo2.
 Import ListNotations.
 Open Scope N_scope.
 
@@ -70,6 +70,70 @@ Proof.
 Qed.
 Print Assumptions C12_idempotent_redo_partial.
 
+(** The general form, every crash point included.  [redo_guard s o k] (decidable) says: (a) if the crash point leaves
+    a torn manifest, the repeated request canonicalises to the same target name as the interrupted one — the torn file is
+    invisible to getExistingName, so this is a condition on the letter case of the request and of the other stored
+    names; (b) a create finds its base as before (its source model is not its own target / its uploaded blob is there
+    again) and meets [create_check] on the restarted store; a pull can download every layer again.  Covers delete, copy,
+    create FROM, create from files, pull, at clean and at torn crash points. *)
+Theorem C12_idempotent_redo_guarded : forall size_of es o k,
+  guards size_of empty_store es ->
+  let s := ev_run size_of empty_store es in
+  op_guard size_of s o = true -> has_unreadable s = false -> redo_guard size_of s o k = true ->
+  let s1 := recover size_of (crash size_of s o k) in
+  (forall n, mget n (exec size_of s1 o) = mget n (exec size_of s o)) /\
+  Inv size_of (exec size_of s1 o) /\ Inv size_of (exec size_of s o) /\
+  (snd (op_run size_of s1 o) = snd (op_run size_of s o) \/
+   (exists n, o = ODelete n) /\ snd (op_run size_of s1 o) = RNotFound /\ snd (op_run size_of s o) = ROk).
+Proof.
+  intros size_of es o k Hg s. apply (redo_general size_of). apply ev_run_inv; [apply Inv_empty | exact Hg].
+Qed.
+Print Assumptions C12_idempotent_redo_guarded.
+
+(** ... and part (a) of the guard is exact: at a torn crash point, if the repetition canonicalises to another name it
+    leaves the torn manifest where the uninterrupted run has the new one. *)
+Theorem C12_redo_torn_exact : forall size_of es o k t ms,
+  guards size_of empty_store es ->
+  let s := ev_run size_of empty_store es in
+  op_guard size_of s o = true -> has_unreadable s = false ->
+  op_mid size_of s o = [ETruncMan t; EWriteMan t ms] ->
+  mans (crash size_of s o k) = aset name_eqb t Unreadable (mans s) ->
+  let s1 := recover size_of (crash size_of s o k) in
+  op_target s1 o <> Some t -> op_guard size_of s1 o = true ->
+  mget t (exec size_of s1 o) = Some Unreadable /\ mget t (exec size_of s o) = Some ms /\ ms <> Unreadable.
+Proof.
+  intros size_of es o k t ms Hg s. apply (redo_torn_exact size_of). apply ev_run_inv; [apply Inv_empty | exact Hg].
+Qed.
+Print Assumptions C12_redo_torn_exact.
+
+(** the manifests of a crash store are those of the start, those of the end, or those of the start with the one
+    target manifest torn; a delete never leaves a torn manifest *)
+Theorem C12_crash_kinds : forall size_of es o k,
+  guards size_of empty_store es ->
+  let s := ev_run size_of empty_store es in
+  op_guard size_of s o = true -> crash_kind size_of s o (crash size_of s o k).
+Proof.
+  intros size_of es o k Hg s. apply (crash_kinds size_of). apply ev_run_inv; [apply Inv_empty | exact Hg].
+Qed.
+Print Assumptions C12_crash_kinds.
+
+(** create from files as the client performs it — the file is uploaded again (POST /api/blobs), then the create is
+    repeated — for every crash point of the create whose torn-manifest condition (a) holds *)
+Theorem C12_redo_upload_create : forall size_of es q k d parts fail det,
+  guards size_of empty_store es ->
+  let s := ev_run size_of empty_store es in
+  op_guard size_of s (OCreate q) = true -> has_unreadable s = false ->
+  cr_base q = BFiles d parts fail det -> dcolon d = true -> is_some (bget (dhex d) s) = true ->
+  let s1 := recover size_of (crash size_of s (OCreate q) k) in
+  let s2 := exec size_of s1 (OBlob d (dhex d)) in
+  (if has_unreadable (crash size_of s (OCreate q) k) then oname_eqb (op_target s1 (OCreate q)) (op_target s (OCreate q)) else true) = true ->
+  (forall n, mget n (exec size_of s2 (OCreate q)) = mget n (exec size_of s (OCreate q))) /\
+  snd (op_run size_of s2 (OCreate q)) = snd (op_run size_of s (OCreate q)).
+Proof.
+  intros size_of es q k d parts fail det Hg s. apply (redo_upload_create size_of). apply ev_run_inv; [apply Inv_empty | exact Hg].
+Qed.
+Print Assumptions C12_redo_upload_create.
+
 (** The full statement — for every crash point — is false of the faithful model: manifests are written in place
     (create-truncate, then write), a kill between the two leaves an unreadable manifest that getExistingName does
     not see; repeating the operation under a name that differs in letter case writes a second manifest. *)
@@ -99,6 +163,18 @@ Qed.
 Print Assumptions C12_idempotent_redo_refuted.
 
 (** ** Non-vacuity *)
+Definition rd_o3 : op := OCreate (MkCreate rd_a (BFrom rd_b) None (Some 2) [] None None 31).  (* re-create a:t, spelled as stored, FROM b:t *)
+
+Example C12_example_redo_guard :
+  let s := ev_run rd_sz empty_store rd_es in
+  (* torn crash point, request spelled as the stored name: covered *)
+  has_unreadable (crash rd_sz s rd_o3 5) = true /\ redo_guard rd_sz s rd_o3 5 = true /\
+  (* torn crash point, request in another letter case: excluded, and it really differs *)
+  redo_guard rd_sz s rd_o2 5 = false /\ redo_guard rd_sz s rd_o2 4 = true /\ redo_guard rd_sz s rd_o2 6 = true /\
+  (* copy and pull at their torn points *)
+  redo_guard rd_sz s (OCopy rd_b rd_a) 1 = true /\ has_unreadable (crash rd_sz s (OCopy rd_b rd_a) 1) = true.
+Proof. vm_compute. repeat split. Qed.
+
 Example C12_example_guards : guards rd_sz empty_store (rd_es ++ [EvCrash rd_o2 5; EvOp rd_o2; EvCrash (ODelete rd_b) 1; EvOp OStartup]).
 Proof. vm_compute. repeat split. Qed.
 
